@@ -44,8 +44,8 @@ def body(c):
     c.model_check("ArrayLayout[padding for every position 0..4096]", "ArrayLayout", path3, workers=1, timeout=300)
     n = 1500 if c.quick else 20000
     if len(cases) > n: cases = rng.sample(cases, n)
-    protos = [None, 2, 3, 4, 5]
-    for k, cs in enumerate(cases): cs["protocol"] = protos[k % 5]
+    protos = [None, 2, 3, 4, 5, -1, 0, 1]          # (-1 = "highest", resolved by pickle itself)
+    for k, cs in enumerate(cases): cs["protocol"] = protos[k % len(protos)]
     base = common.scratch("c19")
     nw = 14
     jobs = [(base, k, cases[k::nw], False) for k in range(nw)]
